@@ -757,6 +757,7 @@ func (ck *checker) uriCases(cfg *lib.Config) lib.CorrFile {
 // ---------------------------------------------------------------- SemVer and SemVerRange values by their constructors
 
 var semVerRoutes = []string{"new-string", "new-parts", "new-hash", "cast-range", "typeset-attr"}
+
 // (a range made from two versions - SemVerRange.new(min, max, exclude_max), semver.FromVersions - is not equal to the parsed
 // range with the same bounds and has another normalized text and key: consistent, the semver library's notion; no route)
 var semVerRangeRoutes = []string{"new-string"}
